@@ -170,6 +170,8 @@ def run_loop(ex, node, st, spec, cond_fn, bind_fn, n_term, keep_fn, label):
     it = z3.Int(fresh_name("it"))
     body_st.assume(it >= 0)
     body_st.inst_terms.append(("term", it))
+    body_st.inst_terms.append(("term", it - 1))
+    body_st.inst_terms.append(("term", it + 1))
     for lab, src in spec.invariant.items():
         assume_spec(ex, body_st, SE(body_st, it).ev(src), f"inv:{lab}")
     body_st.assume(vals.zbool(cond_fn(body_st, it)))
@@ -209,6 +211,7 @@ def run_loop(ex, node, st, spec, cond_fn, bind_fn, n_term, keep_fn, label):
     itx = z3.Int(fresh_name("itx"))
     exit_st.assume(itx >= 0)
     exit_st.inst_terms.append(("term", itx))
+    exit_st.inst_terms.append(("term", itx - 1))
     for lab, src in spec.invariant.items():
         assume_spec(ex, exit_st, SE(exit_st, itx).ev(src), f"inv:{lab}")
     exit_st.assume(z3.Not(vals.zbool(cond_fn(exit_st, itx))))
